@@ -42,8 +42,16 @@ def parseOp (t : String) : Option Op :=
   | "jobs" :: args => do pure (.jobs (← args.mapM parseArg))
   | "bg" :: m :: args => do pure (.bg (← parseBool m) (← args.mapM parseArg))
   | "fg" :: m :: out :: args => do
+    -- `m` = monitor + 2*(a terminal exists) + 4*(interactive); the terminal does not change the result
     let o ← parseState out
-    if o = .running then none else pure (.fg (← parseBool m) o (← args.mapM parseArg))
+    let n ← m.toNat?
+    if o = .running ∨ n > 7 then none else pure (.fg (n % 2 == 1) (n / 4 == 1) o (← args.mapM parseArg))
+  | ["hjs", p, r, i, name] => do
+    let o ← parseState r
+    if o = .running then none else pure (.hjs (← p.toNat?) o (← parseBool i) (parseName name))
+  | "jobsx" :: args => do pure (.jobsClosed (← args.mapM parseArg))
+  | ["ampfail"] => some .ampFail
+  | ["replast"] => some .reportLast
   | "wait" :: args => do pure (.wait (← args.mapM parseArg))
   | ["wres", a] => do pure (.wres (← parseArg a))
   | ["amp", p, m, i, name] => do pure (.amp (← p.toNat?) (← parseBool m) (← parseBool i) (parseName name))
@@ -84,7 +92,8 @@ def showFind (r : Except FindErr Nat) : String :=
 
 /-- `<exit status>:<hex of standard output>:<error classes>` -/
 def showOut (o : Out) : String :=
-  s!"{o.status}:{encChars o.stdout}:{if o.errs.isEmpty then "-" else "+".intercalate o.errs}"
+  let d := match o.divert with | some n => s!"!intr{n}" | none => ""
+  s!"{o.status}{d}:{encChars o.stdout}:{if o.errs.isEmpty then "-" else "+".intercalate o.errs}"
 
 /-- result of the operation itself -/
 def opResult (s : JobList) : Op → String
@@ -98,7 +107,10 @@ def opResult (s : JobList) : Op → String
   | .insertJob pid st jc name => toString (s.insert { pid := pid, state := st, jc := jc, name := name }).1
   | .jobs args => showOut (jobsBuiltin s args).1
   | .bg m args => showOut (bgBuiltin s m args).1
-  | .fg m out args => showOut (fgBuiltin s m out args).1
+  | .fg m i out args => showOut (fgBuiltin s m i out args).1
+  | .hjs pid r i name => (let x := (handleJobStatus s pid r i name).1; s!"{if x.1 then "intr" else "cont"}:{x.2}")
+  | .jobsClosed args => showOut (jobsClosed s args).1
+  | .ampFail => showOut (ampersandFail s).1
   | .wait args => showOut (waitBuiltin s args).1
   | .wres arg =>
     (match waitSpecOf arg with
@@ -114,7 +126,7 @@ def opResult (s : JobList) : Op → String
 def opOut (s : JobList) : Op → Out
   | .jobs args => (jobsBuiltin s args).1
   | .bg m args => (bgBuiltin s m args).1
-  | .fg m out args => (fgBuiltin s m out args).1
+  | .fg m i out args => (fgBuiltin s m i out args).1
   | .wait args => (waitBuiltin s args).1
   | .amp pid m i name => (ampersand s pid m i name).1
   | _ => { status := 0 }
@@ -126,6 +138,7 @@ def pidsMentioned (ops : List Op) : List Nat :=
     | .setAsync p => some p
     | .insertJob p _ _ _ => some p
     | .amp p _ _ _ => some p
+    | .hjs p _ _ _ => some p
     | _ => none
   ps.eraseDups
 
@@ -152,34 +165,43 @@ def compactObs (obs : List String) : String :=
 
 def runLine (line0 : String) : String :=
   let compact := line0.startsWith "@ "
-  let line := if compact then (line0.drop 2).toString else line0
+  let line1 := if compact then (line0.drop 2).toString else line0
+  -- the harness marks a case whose only failure is the known finding (KNOWN_FINDINGS.txt) with this suffix
+  let line := if line1.endsWith "; !kf-insert-suspended" then (line1.dropEnd 22).toString else line1
   let parts := (splitTrim line ";").filter (· ≠ "")
   match parts.mapM parseOp with
   | none => "bad-case\t-"
   | some ops =>
     let pids := pidsMentioned ops
-    let rec go (s : JobList) (ops : List Op) (k : Nat) (obs : List String) (verdict : Option String) (pre : Bool)
-        : List String × Option String × Bool :=
+    -- `verdict`: the first failure other than the known finding; `known`: the first occurrence of the
+    -- known finding (reported only if nothing else fails, so that it never hides another failure)
+    let rec go (s : JobList) (ops : List Op) (k : Nat) (obs : List String) (verdict known : Option String) (pre : Bool)
+        : List String × Option String × Option String × Bool :=
       match ops with
-      | [] => (obs.reverse, verdict, pre)
+      | [] => (obs.reverse, verdict, known, pre)
       | op :: rest =>
         let pre' := pre && opPre s op
         let r := opResult s op
         let s' := step s op
-        let v := match verdict with
-          | some v => some v
-          | none =>
-            if !pre' then none
-            else if !invB s' then some s!"FAIL:inv@{k}"
-            else if !stableB s s' then some s!"FAIL:index@{k}"
-            else match docCheck s s' op (opOut s op) with
-              | some what => some s!"FAIL:{what}@{k}"
-              | none => none
-        go s' rest (k+1) (observe s' r pids :: obs) v pre'
-    let (obs, verdict, pre) := go JobList.empty ops 0 [] none true
-    let spec := match verdict with
-      | some v => v
-      | none => if pre then "ok" else "ok-until-pre"
+        let f : Option String :=
+          if !pre' then none
+          else if !invB s' then some "inv"
+          else if !stableB s s' then some "index"
+          else docCheck s s' op (opOut s op)
+        let isKnown := f == some knownInsertMsg
+        let v := match verdict, f with
+          | some v, _ => some v
+          | none, some what => if isKnown then none else some s!"FAIL:{what}@{k}"
+          | none, none => none
+        let kn := match known with
+          | some x => some x
+          | none => if isKnown then some s!"FAIL:{knownInsertMsg}@{k}" else none
+        go s' rest (k+1) (observe s' r pids :: obs) v kn pre'
+    let (obs, verdict, known, pre) := go JobList.empty ops 0 [] none none true
+    let spec := match verdict, known with
+      | some v, _ => v
+      | none, some v => v
+      | none, none => if pre then "ok" else "ok-until-pre"
     (if compact then compactObs obs else " | ".intercalate obs) ++ "\t" ++ spec
 
 def main : IO Unit := mainLoop runLine
